@@ -19,6 +19,12 @@ CHECKS["C01"] = dict(
     note="Trusted: TLC, W1/W2 doubles, un-framing by the real packet handler outside the consumer task, byte classification (old/spa/junk) with position-coded or random blocks. Fault-free success is at transfer level (queue races are C07).",
     design="§4 C01")
 
+CHECKS["C05"] = dict(
+    technique="TLC model checking of PartialUpdate.tla (all short histories, both handler variants, accumulating-list negative control) + TLC trace validation of recorded real histories (async consume() task on the virtual loop, threaded stepped engine) with installs observed at their linearisation point",
+    text="All histories of <=4 partial-update messages / unreported spa changes / refreshes over a small block are model-checked for both handler variants (client block = sequential reference, one ack per message, ack in protocol range); the variant that never resets its change list is refuted as a control. Real histories (random and repeated positions, the 1-byte form, refreshes overwriting the same positions, one long history past the counter wrap) on the real async and threaded clients are recorded - every block install with the installing task, every STATQ - and TLC validates each log against the spec.",
+    note="Trusted: TLC, W1/W2 doubles, the instance-level wrapper around replace_status_block_segment, STATQ decoding by the harness. Steps are taken only while no transfer is in flight (a refresh overlapping a spa-side change is a protocol-level race, not a library property).",
+    design="§4 C05")
+
 NOT_YET = {}
 
 
